@@ -66,8 +66,9 @@ Cat ==
                                VIface(TMap(tInt), VMap(<<>>)),
                                VIface(TPtr(tInt), VPtr(Leaf(tInt, 1))), VIface(TPtr(tInt), VNil("ptr")),
                                VIface(S1, S1Val(1, 1)), VIface(TPtr(S1), VPtr(S1Val(1, 0)))}}
-  \cup {<<TNamed(id), VStruct(<<Leaf(tInt, cl)>>)>> : id \in {"ZeroT", "ZeroP", "FoldT", "FoldObj"}, cl \in {0, 1}}
-  \cup {<<TPtr(TNamed(id)), x>> : id \in {"ZeroT", "FoldT"}, x \in {VNil("ptr"), VPtr(VStruct(<<Leaf(tInt, 1)>>))}}
+  \cup {<<TNamed(id), VStruct(<<Leaf(tInt, cl)>>)>> : id \in {"ZeroT", "ZeroP", "FoldT", "FoldObj", "RegT", "RegObj"}, cl \in {0, 1}}
+  \cup {<<TPtr(TNamed(id)), x>> : id \in {"ZeroT", "FoldT", "RegT", "RegObj"}, x \in {VNil("ptr"), VPtr(VStruct(<<Leaf(tInt, 1)>>))}}
+  \cup {<<TSlice(TNamed(id)), VSlice(<<VStruct(<<Leaf(tInt, 1)>>)>>)>> : id \in {"RegT", "FoldObj"}}
 
 \* tag variants: [tname, tb, opts]
 Tags ==
